@@ -63,6 +63,9 @@ def _setup_worker():
         sys.path.insert(0, stubs)
     if ROOT not in sys.path:
         sys.path.insert(0, ROOT)
+    if os.environ.get("MXV_APICOV"):
+        from mxv import apicov
+        apicov.install()
 
 
 def run_task(task):
@@ -106,6 +109,9 @@ def run_task(task):
         post = o.get("post")
         if post:
             out["post"] = post(res)
+        if os.environ.get("MXV_APICOV"):
+            from mxv import apicov
+            apicov.dump()
         return out
     except BaseException as e:  # machinery failure
         return {"ok": False, "failure": ("exception", traceback.format_exc()), "trace": [], "schedule": [],
